@@ -93,6 +93,11 @@ class TraceRun:
         if units:
             g.set_length_units(units)
         g.set_resolution(float(resolution))
+        # the documented spellings of a direction are used in turn (full name, short synonym, enum member), chosen by the start position
+        from gscrib.enums import Direction
+        spell = {"clockwise": ("clockwise", "cw", Direction.CLOCKWISE), "counter": ("counter", "ccw", Direction.COUNTER)}.get(direction)
+        if spell is not None:
+            direction = spell[(0 if start[0] == 0 else 1 if start[0] > 0 else 2)]
         g.set_direction(direction)
         if bounds:
             g.set_bounds("axes", (-1000, -1000, -1000), (1000, 1000, 1000))     # wide limits: only the far bypass target violates them
